@@ -164,6 +164,15 @@ Definition add_range (ps : pset) (pname : list byte) (start e modulo : Z) : pset
     let '(parts', ok) := addrange_loop (S (Z.to_nat (e - start))) (ps_parts ps) start e modulo idx in
     ({| ps_names := names'; ps_parts := parts'; ps_len := ps_len ps |}, ok).
 
+(* a partition file: its ranges applied in order, stopping at the first refusal *)
+Fixpoint add_ranges (ps : pset) (l : list (list byte * (Z * Z * Z))) : pset * bool :=
+  match l with
+  | [] => (ps, true)
+  | (n, (s, e, m)) :: t =>
+      let '(ps', ok) := add_range ps n s e m in
+      if ok then add_ranges ps' t else (ps', false)
+  end.
+
 Definition positions_of (parts : list Z) (pi : Z) : list Z :=
   filter (fun i => Z.eqb (nth (Z.to_nat i) parts (-1)) pi) (zrange (Z.of_nat (length parts))).
 
